@@ -7,7 +7,7 @@ for l in open('/verif/seeded/RESULTS.tsv'):
     res.setdefault(d, collections.OrderedDict())[c] = v   # later lines (re-runs) win
 head = """# Seeded changes
 
-Each directory holds `patch.diff` (apply with `git -C /repo apply`), the sub-agent's demonstration `demo.rs`, and `meta.json` (which property it breaks, what it needs to manifest, what the sub-agent ran, and under `verif` what I ran: the confirmation in a scratch worktree and the verdict of each quick-tier check). Round 1 = `<ID>-A|B`, round 2 = `<ID>-2A|2B`, round 3 = `<ID>-3A|3B`, round 4 (changes in shared infrastructure; the property is named in meta.json) = `R4-<area><A|B|C>`, round 5 (changes that make an analysis unsafe, for the simulation-based checks) = `R5-<area><A|B|C>`, round 6 (eight properties again, mechanisms different from all earlier rounds) = `<ID>-6A|6B`. `RESULTS.tsv` is written by `tools/run_all_seeded.sh` from `PLAN.tsv` (later lines for the same change and check are re-runs after the check was strengthened; the last one counts); this file by `tools/gen_seeded_readme.py`.
+Each directory holds `patch.diff` (apply with `git -C /repo apply`), the sub-agent's demonstration `demo.rs`, and `meta.json` (which property it breaks, what it needs to manifest, what the sub-agent ran, and under `verif` what I ran: the confirmation in a scratch worktree and the verdict of each quick-tier check). Round 1 = `<ID>-A|B`, round 2 = `<ID>-2A|2B`, round 3 = `<ID>-3A|3B`, round 4 (changes in shared infrastructure; the property is named in meta.json) = `R4-<area><A|B|C>`, round 5 (changes that make an analysis unsafe, for the simulation-based checks) = `R5-<area><A|B|C>`, round 6 (eight properties again, mechanisms different from all earlier rounds) = `<ID>-6A|6B`, round 7 (short follow-up, one change each for C08 C09 C10) = `<ID>-7A`. `RESULTS.tsv` is written by `tools/run_all_seeded.sh` from `PLAN.tsv` (later lines for the same change and check are re-runs after the check was strengthened; the last one counts); this file by `tools/gen_seeded_readme.py`.
 
 | change | summary | quick-tier verdicts |
 |---|---|---|
